@@ -128,6 +128,26 @@ def run_front_slice(ctx):
                                           "what": f"{v} seed {seed}: model {ml[:60]} but the api run succeeded"})
             if len(samples) < 2:
                 samples.append({"variant": v, "seed": seed, "history": [(h["fe"], h["variant"]) for h in hist]})
+        # the register list is part of the configuration (order and repetitions included): interface vs runner
+        for _ in range(2 if big else 1):
+            cfg = G.sample_cfg(rng, v, default_regs=True)
+            cfg.pop("shadow_stack_size", None)
+            regs = [r for r in DEFAULT_REGS if r not in (cfg["data_reg"], 28)]
+            rng.shuffle(regs)
+            cfg["registers"] = regs[:rng.randrange(4, len(regs))] + [regs[0]]       # unsorted, one repetition
+            cfg["weights"] = list(DEFAULT_W)
+            seed = rng.getrandbits(40)
+            base = {"variant": v, "cfg": cfg, "seed": seed}
+            ra = impl_front([dict(base, fe="api")], tag="fa")[0]
+            rb = impl_front([dict(base, fe="runner")], tag="fb", hashseed="3")[0]
+            evals += 2
+            dist["front_end_pairs"] += 1
+            if (ra["files"] or {}) != (rb["files"] or {}) or bool(ra["exc"]) != bool(rb["exc"]):
+                diff = [f for f in ("int", "jit", "data", "ss") if (ra["files"] or {}).get(f) != (rb["files"] or {}).get(f)]
+                violations.append({"kind": "not-reproducible", "job": base, "front_end": "runner", "history": [],
+                                   "group": "runner-registers",
+                                   "what": f"{v} seed {seed} registers {cfg['registers']}: the runner produced different "
+                                           f"{diff} than the programming interface (exc {rb['exc']} vs {ra['exc']})"})
     return {"name": "front-ends", "evaluations": evals, "distinct": evals,
             "rule": "same (variant, configuration, seed) through the programming interface, the toccata runner, "
                     "gigue.cli.main in-process and `python -m gigue` in a subprocess, under different hash seeds, "
@@ -231,6 +251,13 @@ def run_records_slice(ctx):
             cfg = G.sample_cfg(rng, v)
             cfg.pop("shadow_stack_size", None)
             jobs.append({"fe": "runner", "variant": v, "cfg": cfg, "seed": rng.choice([0, rng.getrandbits(64), rng.getrandbits(127)])})
+        # a campaign: three generations with PICs through one Runner, as toccata.cli.main does for nb_runs > 1
+        for k in range(3):
+            cfg = G.sample_cfg(rng, v)
+            cfg.pop("shadow_stack_size", None)
+            cfg["pics_ratio"] = rng.choice([0.4, 0.8])
+            cfg["pics_mean_case_nb"] = [2, 5, 3][k]
+            jobs.append({"fe": "runner", "variant": v, "cfg": cfg, "seed": rng.getrandbits(64), "runner_key": "campaign-" + v})
     # the shipped base configuration with the low / medium / high presets applied (registers as shipped)
     try:
         base = json.load(open(os.path.join(C.REPO, "toccata", "config", "small_config.json")))["input_data"]
